@@ -94,6 +94,8 @@ def main():
     deadline = float(os.environ.get("VERIF_DEADLINE", "150" if tier == "quick" else "1500"))
     outbase = os.environ.get("VERIF_OUTDIR", os.path.join(VERIF, "out"))
     evdir = os.environ.get("VERIF_EVIDENCE_DIR", os.path.join(VERIF, "evidence"))
+    if (a.n or a.no_known) and "VERIF_EVIDENCE_DIR" not in os.environ:
+        evdir = os.path.join(outbase, "adhoc_evidence")   # ad-hoc runs never touch the committed evidence
     outdir = os.path.join(outbase, prop)
     shutil.rmtree(outdir, ignore_errors=True)
     os.makedirs(outdir, exist_ok=True)
